@@ -470,6 +470,17 @@ def prune(spec):
             marks.append([p, m])
         nd['marks'] = marks
         out.append(nd)
+    # a node only behaves as a recurrent destination / start node if a surviving mark declares it so
+    dests = {m['dest'] for nd in out for _, m in nd['marks'] if m['kind'] == 'rec'}
+    starts = {m['start'] for nd in out for _, m in nd['marks'] if m['kind'] == 'rec'}
+    for i, nd in enumerate(out):
+        if i not in dests:
+            if nd.get('is_rec'):
+                nd['use_default'] = False
+            nd['is_rec'] = False
+            nd['recur_k'] = 0
+        if i not in starts:
+            nd['has_additional'] = False
     return {'nodes': out, 'input': ren[spec['input']], 'output': ren[spec['output']],
             'input_kwargs': spec['input_kwargs']}
 
